@@ -36,6 +36,29 @@ pub fn parse_segs(s: &Sx) -> Vec<Seg> {
     s.list().iter().map(|p| { let l = p.list(); (parse_bound(&l[0]), parse_bound(&l[1])) }).collect()
 }
 
+/// Parse the Display text of a Range<u32> back into its segments (grammar of src/range.rs Display).
+pub fn parse_display(t: &str) -> Vec<Seg> {
+    if t == "∅" { return vec![]; }
+    let atom = |a: &str| -> (Option<Bound<u32>>, Option<Bound<u32>>) {
+        let num = |x: &str| x.trim().parse::<u32>().expect("version");
+        if a == "*" { (Some(Unbounded), Some(Unbounded)) }
+        else if let Some(x) = a.strip_prefix("<=") { (None, Some(Included(num(x)))) }
+        else if let Some(x) = a.strip_prefix(">=") { (Some(Included(num(x))), None) }
+        else if let Some(x) = a.strip_prefix('<') { (None, Some(Excluded(num(x)))) }
+        else if let Some(x) = a.strip_prefix('>') { (Some(Excluded(num(x))), None) }
+        else { let v = num(a); (Some(Included(v)), Some(Included(v))) }
+    };
+    t.split(" | ").map(|sg| {
+        let mut lo = Unbounded; let mut hi = Unbounded;
+        for a in sg.split(", ") {
+            let (l, h) = atom(a);
+            if let Some(l) = l { lo = l; }
+            if let Some(h) = h { hi = h; }
+        }
+        (lo, hi)
+    }).collect()
+}
+
 /// Build a range from its intended segments through the public API only, by one of three
 /// construction trees (so equal sets reached through different operations are compared).
 pub fn build(tree: u64, segs: &[Seg]) -> R {
